@@ -190,6 +190,8 @@ def scenario(draw, p: Profile):
                 ops.append(['status', draw(st.integers(0, 7))])
             elif k == 'idle':
                 ops.append(['idle', draw(st.integers(0, nb - 1)), None])
+            elif k == 'expect':
+                ops.append(['expect', draw(st.integers(0, nb - 1)), draw(st.integers(0, maxdepth)), draw(st.sampled_from([0.0625, 0.1875, 0.3125, 0.5625]))])
             elif k == 'acc':
                 ops.append(['acc', draw(st.integers(0, 7)), draw(st.sampled_from(p.acc_names)), draw(st.booleans()), draw(st.booleans())])
         actors.append(ops)
